@@ -411,7 +411,81 @@ def judge(ctx, cases, mo, io, limit=200, chk=False):
     return stats
 
 
+
+# ----------------------------------------------------------------------------- the field-level instance of the model
+# The theorems are about the model instantiated with a mathcomp fieldType (c02_fops); the bulk correspondence runs the
+# same Gallina code instantiated with integers mod p (c02_zp, extracted).  This stage evaluates the FIELD-LEVEL instance
+# itself ('F_p, absr = representative) by vm_compute on a boundary-directed subsample and compares it with the extracted
+# instance: a per-run test of the parametricity link between the two instances.
+def field_cases_v(sel):
+    """sel: list of case lines (kinds F/D/X/Y, ops solve/invert/det, p in 7,13,31)"""
+    L = ["From mathcomp Require Import all_ssreflect all_algebra.",
+         "From DuneV Require Import C02_Model C02_Spec.", "Import GRing.Theory.", "Local Open Scope ring_scope.",
+         "Definition c02f_abs (p : nat) (x : 'F_p) : nat := x.",
+         "Definition c02f_M (p : nat) (l : seq (seq nat)) : seq (seq 'F_p) := map (map (fun k : nat => k%:R)) l.",
+         "Definition c02f_V (p : nat) (l : seq nat) : seq 'F_p := map (fun k : nat => k%:R) l.",
+         "Definition c02f_ov (p : nat) (r : c02_res (seq 'F_p)) : nat * seq nat := match r with C02_Ok x => (0%N, map (@nat_of_ord _) x) | C02_FMatrixError => (1%N, [::]) | C02_DivByZero => (2%N, [::]) end.",
+         "Definition c02f_om (p : nat) (r : c02_res (seq (seq 'F_p))) : nat * seq nat := match r with C02_Ok x => (0%N, map (@nat_of_ord _) (flatten x)) | C02_FMatrixError => (1%N, [::]) | C02_DivByZero => (2%N, [::]) end.",
+         "Definition c02f_o1 (p : nat) (r : c02_res 'F_p) : nat * seq nat := match r with C02_Ok x => (0%N, [:: nat_of_ord x]) | C02_FMatrixError => (1%N, [::]) | C02_DivByZero => (2%N, [::]) end."]
+    for c in sel:
+        t = c.split(); p, op, n, piv = int(t[0]), t[2], int(t[3]), t[4] != "0"
+        v = [int(x) % p for x in t[5:]]
+        A = "[:: " + "; ".join("[:: " + "; ".join(str(x) for x in v[i * n:(i + 1) * n]) + "]" for i in range(n)) + "]%N"
+        b = "[:: " + "; ".join(str(x) for x in v[n * n:n * n + n]) + "]%N"
+        pv = "true" if piv else "false"
+        ops = "(c02_fops (@c02f_abs %d))" % p
+        if op == "solve":
+            L.append("Eval vm_compute in c02f_ov %d (c02_solve %s (c02f_M %d %s) (c02f_V %d %s) %s)." % (p, ops, p, A, p, b, pv))
+        elif op == "invert":
+            L.append("Eval vm_compute in c02f_om %d (c02_invert %s (c02f_M %d %s) %s)." % (p, ops, p, A, pv))
+        else:
+            L.append("Eval vm_compute in c02f_o1 %d (c02_determinant %s (c02f_M %d %s) %s)." % (p, ops, p, A, pv))
+    return "\n".join(L) + "\n"
+def parse_out(out):
+    res = []
+    for m in re.finditer(r"=\s*\((\d+),\s*(\[::[^\]]*\]|\[::\]|nil)\)", out.replace("\n", " ").replace("%N", "")):
+        nums = [int(x) for x in re.findall(r"\d+", m.group(2).replace("[::", ""))]
+        res.append((int(m.group(1)), nums))
+    return res
+def model_obs(line):
+    main = line.split(" # ")[0].split(" | ")[0]
+    if main.startswith("OK"): return (0, [int(x) for x in main[2:].split()])
+    return (1, []) if "FMatrixError" in main else (2, [])
+
+
+def field_instance_stage(ctx, cases, mo):
+    idx = [i for i, c in enumerate(cases) if c.split()[1] in "FDXY" and c.split()[2] in ("solve", "invert", "det")
+           and c.split()[4] in "01" and int(c.split()[3]) <= 6]
+    # boundary-directed: all corpus cases, then an even spread preferring n >= 4
+    big = [i for i in idx if int(cases[i].split()[3]) >= 4]
+    small = [i for i in idx if int(cases[i].split()[3]) < 4]
+    k1, k2 = (150, 60) if ctx.quick else (1200, 300)
+    pick = sorted(set(idx[:13] + big[::max(1, len(big) // k1)] + small[::max(1, len(small) // k2)]))
+    vf = ctx.path("field_cases.v")
+    open(vf, "w").write(field_cases_v([cases[i] for i in pick]))
+    rc, out = V.sh(["coqc", "-Q", V.COQ, "DuneV", "-w", "none", vf], cwd=ctx.build, timeout=900)
+    got = parse_out(out) if rc == 0 else []
+    bad = 0
+    if rc != 0 or len(got) != len(pick):
+        ctx.violation("corr:C02/field-instance", {"broken": "corr:C02/field-instance (coqc on the generated field_cases.v failed or printed %d of %d results)" % (len(got), len(pick)),
+                                                  "log": out[-1500:]}, found_input=False)
+    else:
+        for i, g in zip(pick, got):
+            if g != model_obs(mo[i]):
+                bad += 1
+                if bad <= 3:
+                    ctx.violation("corr:C02/field-instance", {"broken": "corr:C02/field-instance: the model at 'F_p (theorem instance) and at Z mod p (extracted instance) differ",
+                                                              "case": cases[i], "field_instance": str(g), "zp_instance": mo[i]}, found_input=False)
+    ctx.coverage["field_instance_cases"] = len(pick)
+    ctx.coverage["field_instance_disagreements"] = bad
+    return len(pick)
+
+def params_hook(ctx):
+    V.sh([sys.executable, os.path.join(V.VERIF, "tools", "extract_params.py"), ctx.repo], check=True)
+
+
 def run(ctx):
+    ctx.params_hook = params_hook
     V.coq_stage(ctx)
     model = V.build_model(ctx)
     (outs, deep) = build(ctx, san=True)
@@ -421,6 +495,7 @@ def run(ctx):
     mo = V.run_cases(ctx, [model], cases, tag="model", timeout=900)
     io = V.run_cases(ctx, [impl], cases, tag="impl", timeout=60 if ctx.quick else 300)
     stats = judge(ctx, cases, mo, io)
+    nfield = field_instance_stage(ctx, cases, mo)
     # the build with DUNE_FMatrix_WITH_CHECKING (non-default mode): all dense cases of size <= 4
     cc = [c for c in cases if c.split()[1] in "FDXY" and c.split()[2] in ("solve", "invert", "det", "seq") and int(c.split()[3]) <= 4]
     cmo = V.run_cases(ctx, [model, "chk"], cc, tag="cmodel", timeout=600)
@@ -482,12 +557,19 @@ def run(ctx):
         "exhaustive": False, "traces_validated_against_impl": len(cases) + deep_n,
     })
     ctx.coverage.update(stats)
+    try:
+        rep = json.load(open(os.path.join(V.VERIF, "build", "params_report.json")))
+        ctx.coverage["translated_constants"] = {k: v for k, v in rep.items() if k.startswith("c02_")}
+    except Exception:
+        pass
     ctx.coverage["with_checking_build"] = dict(cases=len(cc), **cstats)
-    ctx.coverage["evaluations"] += len(cc)
+    ctx.coverage["evaluations"] += len(cc) + nfield
     ctx.coverage["traces_validated_against_impl"] += len(cc)
     ctx.assumptions += [
         "the model code is polymorphic in the record of field operations; theorems are about its instance at a mathcomp fieldType, the "
-        "correspondence runs its instance at Z mod p (c02_zp) — the two are linked by parametricity of the same Gallina code, not by a theorem",
+        "bulk correspondence runs its instance at Z mod p (c02_zp, extracted) — the two are linked by parametricity of the same Gallina code "
+        "(not a theorem) and, on every run, by evaluating the field-level instance at 'F_p with vm_compute on a boundary-directed subsample "
+        "and comparing it with the extracted instance (coverage.field_instance_cases)",
         "harness/C02/gfp.hh (GF(p) number class: abs = representative, division by zero throws) is trusted",
         "floating-point behaviour (rounding, backward error) is not covered by the theorems; thorough tier runs a labelled residual TEST",
     ]
